@@ -162,3 +162,18 @@ Fixpoint spec_events (arrows : arrow_table) (t : tree) (after : Z) : list event 
 Definition arrows_of_ev (rule_len : Z -> Z) (evt : ev_table) : arrow_table :=
   map (fun '(i, er) => er_reports er ++ (if er_type er =? 0 then [] else [(O, Z.to_nat (rule_len (Z.of_nat i)), er_type er)]))
       (combine (seq 0 (length evt)) evt).
+
+(* boolean form of the well-formedness hypothesis of the C02 theorems (Events_strict.wf_tree) *)
+Definition report_okb (n : nat) (rep : nat * nat * Z) : bool :=
+  let '(s, e, _) := rep in (s <=? e)%nat && (e <=? n)%nat && (negb (Nat.eqb s e) || (e <? n)%nat).
+
+Fixpoint wf_treeb (evt : ev_table) (rl : Z -> Z) (t : tree) : bool :=
+  match t with
+  | TLeaf _ _ _ => true
+  | TNode r ch =>
+      (0 <=? r) && Nat.eqb (Z.to_nat (rl r)) (length ch) &&
+      forallb (report_okb (length ch)) (er_reports (ev_at evt r)) &&
+      (er_trailing_nulls (ev_at evt r) ||
+       match ch with [] => true | _ => match leaves (last ch (TLeaf 0 0 0)) with [] => false | _ => true end end) &&
+      (fix go (l : list tree) : bool := match l with [] => true | c :: rest => wf_treeb evt rl c && go rest end) ch
+  end.
